@@ -380,6 +380,9 @@ func runC15(t *zsim.Tape, cfg *hlib.Config) *hlib.Outcome {
 		main.Imports = append(main.Imports, c15Imp{Target: "@无此库"})
 	case 3:
 		main.Imports = append(main.Imports, c15Imp{Target: "@JSON"})
+	case 5:
+		// a name that merely BEGINS like a registered library is another, unregistered library
+		main.Imports = append(main.Imports, c15Imp{Target: []string{"@JSON-扩展", "@JSON-", "@JSON-v2", "@JSON2", "@json", "@"}[t.Draw(6)]})
 	case 4:
 		// the FILE name written where the module name belongs: 导入“甲.zn” means 甲.zn.zn, which
 		// does not exist (unless the module of that name is part of this graph)
